@@ -75,7 +75,7 @@ def _lenient_int(b):
     t = b.strip(b" ")
     if t.startswith(b"+"):
         t = t[1:]
-    return int(t) if t.isdigit() and t.isascii() else None
+    return int(t) if t.isdigit() and t.isascii() and len(t) < 4000 else None
 
 
 def _inconsistent(raw):
@@ -200,6 +200,14 @@ def grammar_faults(f):
     ck = parts[-1][3:]
     for v in [b"ab", b"", b"-5", b"+%d" % bl, b" %d" % bl, b"%d " % bl, b"1e2", b"99999999", b"0", b"\xb2\xb3", b"0x10", b"%d.0" % bl]:
         yield "bodylength-nonnumeric" if not v.strip().lstrip(b"+-").isdigit() else "bodylength-odd", _reframe(fields, bodylen=v)
+    # numbers with more digits than int() converts (Python >= 3.11 refuses more than 4300), with and without a trailer
+    for v in [b"1" * 4300, b"1" * 4301, b"9" * 5000, b"0" * 5000 + b"%d" % bl]:
+        g = _reframe(fields, bodylen=v)
+        yield "bodylength-huge", g
+        yield "bodylength-huge/no-trailer", g[: g.rindex(b"10=")]
+        yield "bodylength-huge/header-only", g[: g.index(b"\x019=") + 3 + len(v) + 1]
+    yield "checksum-huge", _reframe(fields, cksum=b"1" * 5000)
+    yield "tag-huge", _reframe(fields[:1] + [b"5" * 5000 + b"=1"] + fields[1:])
     for d in list(range(-9, 0)) + list(range(1, 10)) + [100, -bl]:
         yield ("bodylength-off", _reframe(fields, bodylen=str(max(bl + d, 0)).encode()))
         # same but checksum of the original (inconsistent)
@@ -261,7 +269,7 @@ def claimed_extent(m):
     if m.startswith(b"8=FIX.4.4\x019="):
         i2 = m.find(SOH, 12)
         v = m[12:i2] if i2 > 0 else b""
-        if v.isdigit() and v.isascii():
+        if v.isdigit() and v.isascii() and len(v) < 12:
             return max(len(m), i2 + 1 + int(v) + 7)
     return len(m)
 
@@ -339,6 +347,9 @@ def semantic_faults():
         ("seqnum-empty-ish", ref_encode("D", H + [(34, " ")] + T + [(11, "a")])),
         ("seqnum-float", ref_encode("0", H + [(34, "2.0")] + T)),
         ("seqnum-huge", ref_encode("0", H + [(34, "9" * 400)] + T)),
+        ("seqnum-beyond-int-conversion", ref_encode("0", H + [(34, "9" * 5000)] + T)),
+        ("resend-begin-beyond-int-conversion", ref_encode("2", H + [(34, 2)] + T + [(7, "1" * 5000), (16, 0)])),
+        ("seqreset-newseqno-beyond-int-conversion", ref_encode("4", H + [(34, 2)] + T + [(123, "Y"), (36, "1" * 5000)])),
         ("seqnum-duplicated", ref_encode("D", H + [(34, 2), (34, 2)] + T + [(11, "a")])),
         ("resend-begin-nonnumeric", ref_encode("2", H + [(34, 2)] + T + [(7, "abc"), (16, 0)])),
         ("resend-fields-missing", ref_encode("2", H + [(34, 2)] + T)),
